@@ -128,7 +128,20 @@ impl Buffer {
             }
         }
         match &token.value {
-            Value::Identifier(ident) => self.push_str(&ident.to_string()),
+            Value::Identifier(ident) => {
+                let name = ident.to_string();
+                let extended = name
+                    .strip_prefix('\\')
+                    .and_then(|name| name.strip_suffix('\\'));
+                if let Some(inner) = extended {
+                    // A backslash inside an extended identifier is written as two backslashes
+                    self.push_ch('\\');
+                    self.push_str(&inner.replace('\\', "\\\\"));
+                    self.push_ch('\\');
+                } else {
+                    self.push_str(&name);
+                }
+            }
             Value::String(string) => {
                 self.push_ch('"');
                 for byte in &string.bytes {
